@@ -628,7 +628,7 @@ def _get_splits_hook(eng, args, kw, st, fr, k, node):
     such that before every s_k (k >= 1) there is a gap larger than min_gap to ALL earlier rows."""
     eng.assumptions.add("assumed contract of Rechunker.get_splits (checked by the bounded rechunker stand-in only): split indices start "
                         "at 0, increase strictly, stay below the row count, and each one follows a gap > min_gap to every earlier row")
-    fr.on_raise(Exc("ValueError"), st)
+    fr.on_raise(Exc("ValueError:target"), st)
     data = args[0]
     from pyvc.engine import Arr as _Arr
     if not isinstance(data, _Arr):
@@ -738,7 +738,7 @@ read_format_split = REG.add(Contract(
     params=dict(self="V", read_chunk_kwargs="V", rechunk="bool", source_size_mb="V", executor="V"),
     ensures=_rfs_ens,
     raises={"Any": lambda S, a: S.true, "ValueError": lambda S, a: S.true, "ValueError:runs": lambda S, a: S.true,
-            "CannotSplit": lambda S, a: S.false},
+            "ValueError:target": lambda S, a: S.true, "CannotSplit": lambda S, a: S.false},
     yields=_rfs_yields,
     ghost={"cur_end": z3.IntVal(0), "rows_out": z3.IntVal(0), "n_yields": z3.IntVal(0), "fut": z3.Const("no_future", V)},
     calls={"self._read_and_format_chunk": _read_hook, "executor.submit": _submit_read, "strax.Rechunker.get_splits": _get_splits_hook,
@@ -798,3 +798,130 @@ filesaver_init = REG.add(Contract(
            "self._flush_metadata": Abstract(sort=None, may_raise=["OSError"])},
     consts={"RUN_METADATA_PATTERN": "%s-metadata.json"},
 ))
+
+
+# --------------------------------------------------------------------------------------
+# Rechunker.receive / flush: every row received is handed out once or kept in the cache; pieces are contiguous (C07 / C03)
+# --------------------------------------------------------------------------------------
+from contracts.chunk import concatenate2, F as FCH  # noqa: E402
+
+
+def _rk_append(eng, args, kw, st, fr, k, node):
+    """chunks.append(_chunk): a piece is handed out"""
+    piece = args[-1]
+    S = eng.S
+    v = eng.resolve(piece, st.heap)
+    K = eng.resolve(st.ghost["py:K"], st.heap)
+    g = st.ghost
+    eng.oblige("rechunker", "each piece starts where the previous one ended (the first at the start of the cached + received data)", st,
+               v.start == g["cur_end"], node)
+    eng.oblige("rechunker", "each piece carries the next rows, unchanged and in order", st,
+               S.b(S.And(g["rows_out"] + v.data.n <= K.data.n, _same_rows(S, v.data, K.data, g["rows_out"]))), node)
+    g2 = dict(g)
+    g2["cur_end"] = v.end
+    g2["rows_out"] = g["rows_out"] + v.data.n
+    g2["n_out"] = g["n_out"] + 1
+    return k(PNONE, St(st.env, st.heap, st.pc, g2))
+
+
+def _rk_concat(eng, args, kw, st, fr, k, node):
+    """strax.Chunk.concatenate([self.cache, chunk], ...): through its contract (two chunks of one run)"""
+    from pyvc.library import contract_call
+    lst = args[0]
+
+    def got(res, s2):
+        g = dict(s2.ghost)
+        g["py:K"] = res
+        g["cur_end"] = s2.heap[res.base]["start"]
+        return k(res, St(s2.env, s2.heap, s2.pc, g))
+    return contract_call(eng, concatenate2, [Opq(eng.fresh("cls", "V")), tuple(lst), kw.get("allow_superrun", PNONE)], {}, st, fr, got, node)
+
+
+def _rk_splits(eng, args, kw, st, fr, k, node):
+    g = dict(st.ghost)
+    if "py:K" not in g:
+        # no cache: the data being split is the received chunk itself
+        ch = st.env["chunk"]
+        g["py:K"] = ch
+        g["cur_end"] = st.heap[ch.base]["start"]
+        st = St(st.env, st.heap, st.pc, g)
+    return _get_splits_hook(eng, args, kw, st, fr, k, node)
+
+
+def _rk_loop(S, a):
+    if "K" not in a.rghost or "S" not in a.rghost:
+        return []
+    K, sv = a.rghost["K"], a.rghost["S"]
+    c, g = a.chunk, a.ghost
+    return [("the part not yet handed out is a well-formed chunk", S.And(*[f for _, f in chunk_wf(S, c)])),
+            ("it starts where the last piece ended and ends where the data ends", S.And(c.start == g.cur_end, c.end == K.end)),
+            ("exactly the rows before the k-th split index have been handed out", S.And(g.rows_out == sv.at(a.k_), a.k_ < sv.n, g.n_out >= 0)),
+            ("the remaining rows are the data's rows from there on", S.And(g.rows_out + c.data.n == K.data.n, _same_rows(S, c.data, K.data, g.rows_out)))]
+
+
+def _rk_ens(variant):
+    def ens(S, a, r):
+        g = a.ghost
+        if isinstance(r, list):
+            return [("without rechunking the received chunk is handed on as it is", S.And(S.Not(a.self.rechunk), S.b(len(r) == 1 and getattr(r[0], "base", getattr(getattr(r[0], "_ref", None), "base", None)) == a.chunk._ref.base)))]
+        K = a.rghost["K"]
+        cache = a.self.cache
+        out = [("what is kept in the cache starts where the last piece handed out ended and reaches to the end of the data",
+                S.And(cache.start == g.cur_end, cache.end == K.end)),
+               ("every row of the cached + received data was handed out or is kept, in order, exactly once",
+                S.And(g.rows_out + cache.data.n == K.data.n, _same_rows(S, cache.data, K.data, g.rows_out)))]
+        if variant == "cached":
+            c0 = a.old.self.cache
+            out.append(("the data starts where the old cache started (nothing of the cache is lost)", K.start == c0.start))
+        else:
+            out.append(("the data is the received chunk", S.And(K.start == a.chunk.start, K.end == a.chunk.end, K.data.n == a.chunk.data.n)))
+        return out
+    return ens
+
+
+RECHUNKER_EMPTY = ObjT("Rechunker", rechunk="bool", is_superrun="V", run_id="V", cache=lambda eng, name, st: (PNONE, st))
+RECHUNKER_CACHED = ObjT("Rechunker", rechunk="bool", is_superrun="V", run_id="V", cache=CHUNK)
+
+
+def _rk_contract(variant, self_spec):
+    def req(S, a):
+        out = chunk_wf(S, a.chunk)
+        if variant == "cached":
+            c0 = a.self.cache
+            out = out + chunk_wf(S, c0) + [
+                ("cache and received chunk belong to one data type and run",
+                 S.And(S.eq(c0.dtype, a.chunk.dtype), S.eq(c0.data_type, a.chunk.data_type), S.eq(c0.data_kind, a.chunk.data_kind),
+                       S.eq(c0.run_id, a.chunk.run_id), S.Not(S.is_none(c0.run_id))))]
+        return out
+    return REG.add(Contract(
+        FCH, "Rechunker.receive", variant=variant,
+        params=dict(self=self_spec, chunk=CHUNK),
+        requires=req,
+        ensures=_rk_ens(variant),
+        raises={"ValueError": (lambda S, a: a.chunk.start < a.self.cache.end) if variant == "cached" else (lambda S, a: S.true),
+                "ValueError:runs": lambda S, a: S.true, "ValueError:target": lambda S, a: S.true, "CannotSplit": lambda S, a: S.false},
+        ghost={"cur_end": z3.IntVal(0), "rows_out": z3.IntVal(0), "n_out": z3.IntVal(0)},
+        calls={"strax.Chunk.concatenate": _rk_concat, "self.get_splits": _rk_splits, "np.diff": _np_diff_hook, "chunks.append": _rk_append},
+        consts={"DEFAULT_CHUNK_SPLIT_NS": z3.IntVal(MIN_GAP)},
+        loops={1: Loop(_rk_loop)},
+        loop_ghost={1: ["cur_end", "rows_out", "n_out"]},
+        local_sorts={"chunk": CHUNK, "chunks": "V"},
+    ))
+
+
+rechunker_receive_empty = _rk_contract("no cache", RECHUNKER_EMPTY)
+rechunker_receive_cached = _rk_contract("cached", RECHUNKER_CACHED)
+
+
+def _flush_ens(S, a, r):
+    if isinstance(r, list) and len(r) == 0:
+        return [("nothing to flush only when nothing is cached", S.b(a.old.self.cache is PNONE or a.old.self.cache is None))]
+    return [("what was cached is handed out, once: the cache is empty afterwards",
+             S.b(isinstance(r, list) and len(r) == 1 and getattr(r[0], "base", None) == getattr(getattr(a.old.self.cache, "_ref", None), "base", "?")
+                 and (a.self.cache is PNONE or a.self.cache is None)))]
+
+
+rechunker_flush_cached = REG.add(Contract(
+    FCH, "Rechunker.flush", variant="cached", params=dict(self=RECHUNKER_CACHED), ensures=_flush_ens, raises={}))
+rechunker_flush_empty = REG.add(Contract(
+    FCH, "Rechunker.flush", variant="no cache", params=dict(self=RECHUNKER_EMPTY), ensures=_flush_ens, raises={}))
